@@ -101,7 +101,12 @@ struct Rng {
 #include <csignal>
 #include <unistd.h>
 static char auv_inflight[512] = "";
-#define AUV_INFLIGHT(...) std::snprintf(auv_inflight, sizeof auv_inflight, __VA_ARGS__)
+// every noted call also (re)arms a watchdog: a library call that does not return within AUV_CALL_TIMEOUT seconds is logged as a
+// "crash" record with signal 14 (SIGALRM) -- non-termination on a valid input is a finding, not a tool failure
+#ifndef AUV_CALL_TIMEOUT
+#define AUV_CALL_TIMEOUT 150
+#endif
+#define AUV_INFLIGHT(...) (std::snprintf(auv_inflight, sizeof auv_inflight, __VA_ARGS__), alarm(AUV_CALL_TIMEOUT))
 static void auv_crash_handler(int sig) {
     char buf[700];
     int n = std::snprintf(buf, sizeof buf, "\n{\"k\":\"crash\",\"sig\":%d,\"inflight\":\"%s\"}\n", sig, auv_inflight);
@@ -113,6 +118,7 @@ struct AuvCrashInit {
     AuvCrashInit() {
         std::signal(SIGFPE, auv_crash_handler); std::signal(SIGSEGV, auv_crash_handler);
         std::signal(SIGILL, auv_crash_handler); std::signal(SIGABRT, auv_crash_handler); std::signal(SIGBUS, auv_crash_handler);
+        std::signal(SIGALRM, auv_crash_handler);
     }
 };
 static AuvCrashInit auv_crash_init_instance;
